@@ -1,14 +1,98 @@
 package props
 
 import (
+	"fmt"
+	"sync"
+	"sync/atomic"
+	"unsafe"
+
+	"github.com/couchbase/nitro"
+
 	"nitroverif/internal/rt"
 )
 
 // C06 — garbage collection precise and complete.
 
+// c06Directed: two writers delete the same older-epoch key. The loser is parked at a hook point
+// (after its lookup / on entry of DeleteNode / right before the dead-stamp CAS) while the winner
+// deletes that key and several more; then the loser resumes. After the next snapshot is closed and
+// GC() ran at quiescence exactly the live keys may remain.
+func c06Directed(c *rt.C, point int, mem string) {
+	db := OpenDB(DBOpt{Mem: mem})
+	w1, w2 := db.N.NewWriter(), db.N.NewWriter()
+	const n = 12
+	for i := 0; i < n; i++ {
+		w1.Put(KeyBytes(i))
+	}
+	s0, _ := db.N.NewSnapshot()
+	s0.Close()
+	parked := make(chan struct{})
+	resume := make(chan struct{})
+	var once sync.Once
+	var loserG int64
+	nitro.VerifSetHook(func(id int, arg unsafe.Pointer) {
+		if id == point && atomic.LoadInt64(&loserG) == 1 {
+			once.Do(func() {
+				atomic.StoreInt64(&loserG, 2)
+				close(parked)
+				<-resume
+			})
+		}
+	})
+	defer nitro.VerifSetHook(nil)
+	done := make(chan bool)
+	go func() {
+		atomic.StoreInt64(&loserG, 1)
+		done <- w2.Delete(KeyBytes(3))
+	}()
+	select {
+	case <-parked:
+	case ok := <-done:
+		c.Inconclusive(fmt.Sprintf("hook point %d never reached (Delete returned %v)", point, ok))
+		return
+	}
+	// winner: the contended key and four more
+	okW := w1.Delete(KeyBytes(3))
+	for _, k := range []int{4, 5, 6, 7} {
+		w1.Delete(KeyBytes(k))
+	}
+	close(resume)
+	okL := <-done
+	c.Evals(1)
+	c.Sig("directed/point=%d/mem=%s/winner=%v/loser=%v", point, mem, okW, okL)
+	witness := map[string]interface{}{"parked_at_hook": point, "mem": mem, "winner_result": okW, "loser_result": okL}
+	if okW == okL {
+		c.Inconclusive(fmt.Sprintf("set-semantics oracle (C03): both deletes of one key returned %v", okW))
+		return
+	}
+	s1, _ := db.N.NewSnapshot()
+	live := n - 5
+	if s1.Count() != int64(live) {
+		c.Inconclusive(fmt.Sprintf("Count()=%d, want %d (C03's oracle)", s1.Count(), live))
+	}
+	s1.Close()
+	db.N.GC()
+	if !Quiesce(db.N) {
+		c.Inconclusive("quiescence probe did not settle")
+		return
+	}
+	w := Walk(db.N.VerifStore(), nitroInsCmp(false), nitro.ItemSize, 1000)
+	if w.Level0Linked != live {
+		c.Violate("node-count", fmt.Sprintf("directed schedule (loser of a contended delete parked at hook %d while the winner deleted 4 more keys): all snapshots closed, GC() ran at quiescence, %d keys live but %d nodes physically present: the winner's garbage list was cut", point, live, w.Level0Linked), witness)
+	}
+	if last := db.N.GetLastGCSn(); last != db.N.GetCurrSn()-1 {
+		c.Violate("gc-frontier", fmt.Sprintf("GetLastGCSn()=%d, currSn=%d", last, db.N.GetCurrSn()), witness)
+	}
+	c.Sample(witness)
+}
+
 func runC06(c *rt.C) {
 	r := c.Rng
 	mem := memModes()[c.Index%3]
+	if c.Index < 6 {
+		c06Directed(c, []int{nitro.VpDelete2Found, nitro.VpDelNodeEntry, nitro.VpDelNodeBeforeCAS}[c.Index%3], []string{"go", "poison"}[c.Index/3])
+		return
+	}
 	if c.Index%3 == 1 || c.Index%4 == 0 {
 		// contended deletes: every snapshot closed after each phase => exactly the live keys must remain
 		o := CtdOpt{Mem: mem, KV: r.Intn(2) == 0, NWriters: pick(r, 2, 4, 8, 16), NKeys: pick(r, 1, 2, 4, 8),
@@ -53,7 +137,7 @@ func init() {
 	rt.Register(&rt.Prop{
 		ID: "C06", Level: "exploration",
 		Technique: "runtime monitoring: at deterministic quiescent checkpoints (explicit GC(), queues empty, every worker parked — decided from a goroutine profile, not from time) the collection frontier, physical node count, soft deletes and MemoryInUse are reconciled with a version-level reference model and a structure walk",
-		Rule: "ownership engine: 1-8 writers over 8-128 keys, snapshot after every phase, checkpoint after every phase; close orders random / newest-first / oldest-last / keep-all-then-seeded-permutation, closes partly from concurrent goroutines, GC() storms; expected: GetLastGCSn = (oldest open sn)-1, physically present versions = live ∪ {dead versions with deadSn > lastGCSn} (the documented in-order collector), MemoryInUse = bytes of exactly those nodes once nothing is open. " +
+		Rule: "cases 0-5: deterministic rendezvous schedules — the loser of a contended cross-epoch delete is parked after its lookup / on entry of DeleteNode / before the dead-stamp CAS while the winner deletes that key and four more; afterwards exactly the live keys may remain. ownership engine: 1-8 writers over 8-128 keys, snapshot after every phase, checkpoint after every phase; close orders random / newest-first / oldest-last / keep-all-then-seeded-permutation, closes partly from concurrent goroutines, GC() storms; expected: GetLastGCSn = (oldest open sn)-1, physically present versions = live ∪ {dead versions with deadSn > lastGCSn} (the documented in-order collector), MemoryInUse = bytes of exactly those nodes once nothing is open. " +
 			"contention engine: 2-16 writers deleting/re-inserting the same 1-8 keys, every snapshot closed after every phase: exactly the live keys may remain. evaluations = checkpoints reconciled; distinct = (close-order policy, number open, order class of the closes) / contention configurations",
 		Assumptions: []string{"'pinned by open snapshots' is evaluated with the documented in-order collection rule: a version with deadSn=e stays while any snapshot with sn<=e is open", "quiescence is decided by the probe (channels empty through a verif accessor + every collection/free worker parked), wall-clock only as an inconclusive watchdog"},
 		Cases: func(t string) int {
